@@ -241,6 +241,8 @@ def judgeState (s : Q Float) (cur : Nat → Aabb3 Float) (live : List Nat) (afte
     if !s.dirtyNodes.isEmpty then some "dirty-left-after-refit"
     else if !checkBox (toRat s) (fun d => qbox (cur d)) then some "box-not-containing-below-after-refit"
     else if !checkFresh (toRat s) (fun d => qbox (cur d)) then some "box-not-containing-fresh-after-refit"
+    -- `Qbvh::root_aabb` is a stored box too: it contains the current box of every live leaf
+    else if !(live.all fun i => boxContains (qbox s.rootAabb) (qbox (cur i))) then some "root-aabb-not-containing-live-leaf-after-refit"
     else none
   else none
 
